@@ -746,6 +746,23 @@ impl Gen for Bytes {
 impl Gen for mime::Mime {
     fn generate(g: &mut GenCx<'_, '_>) -> Self {
         let base = *g.t.pick(&["application/octet-stream", "text/plain", "application/xml", "image/png", "text/html; charset=utf-8", "application/json", "binary/octet-stream", "multipart/mixed; boundary=abc"]);
+        if g.t.chance(96) {
+            // parameters: names are case-insensitive tokens, values are case-sensitive tokens or quoted strings
+            let essence = base.split(';').next().unwrap_or(base);
+            let mut text = essence.to_owned();
+            for _ in 0..1 + g.t.below(2) {
+                let name = *g.t.pick(&["boundary", "charset", "name", "profile", "version", "q"]);
+                let value = match g.t.below(3) {
+                    0 => format!("Part_{}", g.t.string1(Alpha::Simple, 6)).replace('a', "A"),
+                    1 => format!("\"{} Q1.PDF\"", g.t.string1(Alpha::Simple, 5)),
+                    _ => (*g.t.pick(&["UTF-8", "utf-8", "ISO-8859-1", "1.0", "Mixed.Case-Token"])).to_owned(),
+                };
+                text.push_str(&format!("; {name}={value}"));
+            }
+            if let Ok(m) = text.parse::<mime::Mime>() {
+                return m;
+            }
+        }
         base.parse().expect("static mime")
     }
 }
